@@ -2,6 +2,7 @@ package c14
 
 import (
 	"fmt"
+	"os"
 	"path/filepath"
 	"testing"
 	"time"
@@ -314,6 +315,16 @@ func TestCheck(t *testing.T) {
 	fs := filters(r, routes, targets)
 	const shards = 16
 	deadline := r.Deadline(80*time.Second, 13*time.Minute)
+	if only := os.Getenv("VERIF_C14_ONLY"); only == "mcp-proxy" {
+		// development aid: just the "MCP through the Admin API proxy" part; such a run is never a complete check
+		if _, child := runner.IsShard(); !child {
+			mcpProxyPart(r)
+			r.Add("evaluations", r.Counter("mcp_proxy_runs"))
+			r.Set("rule", "VERIF_C14_ONLY=mcp-proxy")
+			r.NotExhaustive("VERIF_C14_ONLY=mcp-proxy: only the mcp-proxy part was run")
+			r.Finish()
+		}
+	}
 	if ji, ok := runner.Job(); ok {
 		var c counters
 		mem := qsys.New("memory", cfg, "")
